@@ -35,7 +35,7 @@ ASSUMPTIONS = [
     "key extractors and the join condition are harness callbacks (the node stores them as boxed closures)",
     "format!(\"{}_{}\", id, ts) of a symbolic timestamp is an injective arithmetic code (equal texts <=> equal id and equal timestamp); HashMap iteration = one fixed order (results are compared as multisets)",
 ]
-BOUNDS_NOTE = "bounds: K steps (arrivals and watermark advances together, see runs[].bounds); of the 180 five-step kind sequences 14 are not run (LLRRW LLRWW LLWRW LRLRW LRLWW LRRLW RLLRW RLLWW RLRLW RLRWW RRLLW RRLWW RRWLW LRRWW: too slow); outer joins, count/session windows and join_manager routing are outside the claim"
+BOUNDS_NOTE = "bounds: K steps (arrivals and watermark advances together, see runs[].bounds); five-step histories only for the 12 step-kind sequences in PICK5 (checks/c14.py); outer joins, count/session windows and join_manager routing are outside the claim"
 
 
 def mk_event(step, ts):
@@ -48,6 +48,13 @@ def mk_event(step, ts):
 SLOW5 = {"LLRRW", "LLRWW", "LLWRW", "LRLRW", "LRLWW", "LRRLW", "RLLRW", "RLLWW", "RLRLW", "RLRWW", "RRLLW", "RRLWW", "RRWLW", "LRRWW"}
 
 
+# the five-step sequences the thorough tier runs (20-45 s each, run one after the other): mixed sides with a watermark
+# advance in the middle, repeated arrivals on one side, leading watermarks. 177 of the 180 sequences were run once while
+# building (each held; LLRWW, LRLWW, RLLRW did not finish in 240 s); running them all takes > 80 min, so the registered
+# tier keeps this selection
+PICK5 = ["LRWLR", "RLWRL", "LWRLR", "RWLRL", "LLWRL", "RWRLR", "LWWRL", "WLLRR", "LLLRR", "RRLRL", "WRWLR", "LRWLL"]
+
+
 def shapes(K):
     """all step-kind sequences of length K with at least one left and one right arrival (L/R/W per step)"""
     import itertools
@@ -56,7 +63,7 @@ def shapes(K):
 
 TIERS = {
     "quick": [{"K": 3}] + [{"K": 4, "shape": x} for x in shapes(4)],
-    "thorough": [{"K": 3}] + [{"K": 4, "shape": x} for x in shapes(4)] + [{"K": 5, "shape": x} for x in shapes(5) if x not in SLOW5],
+    "thorough": [{"K": 3}] + [{"K": 4, "shape": x} for x in shapes(4)] + [{"K": 5, "shape": x} for x in PICK5],
 }
 
 def run(K, T=T, W=3, shape=None, witness=False):
